@@ -23,12 +23,14 @@
                         the counts the log implies
     FreedNotAbandoned   arena blocks are not given back while their segment is marked abandoned
     WonSegmentsSettled  when the API call returns, every segment the thread won has an owner again or was marked again
+    NoPurgeAfterAbandon a thread does not purge (madvise / decommit) memory of a segment after it has marked it abandoned: from that moment
+                        another thread may adopt the segment and hand its free spans out (pending purges are done BEFORE the mark; C13)
  ***************************************************************************)
 EXTENDS Integers, Sequences, FiniteSets, TLC, Json, IOUtils
 CONSTANT Relaxed
 Tr == ndJsonDeserialize(IOEnv.TRACE)
-VARIABLES step, tid, bit, cnt, oscnt, won, pend, pendos
-vars == <<step, tid, bit, cnt, oscnt, won, pend, pendos>>
+VARIABLES step, tid, bit, cnt, oscnt, won, pend, pendos, gone, cop
+vars == <<step, tid, bit, cnt, oscnt, won, pend, pendos, gone, cop>>
 G(name, d, cond) == IF cond THEN TRUE ELSE (Relaxed /\ PrintT(<<"GUARDFAIL", name, step + 1, d>>))
 Put(f, k, v) == [x \in (DOMAIN f) \cup {k} |-> IF x = k THEN v ELSE f[x]]
 Get(f, k, d) == IF k \in DOMAIN f THEN f[k] ELSE d
@@ -36,20 +38,21 @@ Empty == [x \in {} |-> 0]
 SetOf(q) == {q[i] : i \in 1..Len(q)}
 Unknown == -1
 
-Init == step = 0 /\ tid = Empty /\ bit = {} /\ cnt = Unknown /\ oscnt = Unknown /\ won = Empty /\ pend = Empty /\ pendos = Empty
+Init == step = 0 /\ tid = Empty /\ bit = {} /\ cnt = Unknown /\ oscnt = Unknown /\ won = Empty /\ pend = Empty /\ pendos = Empty /\ gone = Empty /\ cop = Empty
 
 TidStep(ev) ==
   LET S == ev.seg  t == ev.t  me == t + 1  cur == Get(tid, S, Unknown)  w == Get(won, t, {}) IN
-  IF ev.k # "st" \/ S = 0 THEN UNCHANGED <<tid, bit, cnt, oscnt, won, pend, pendos>>
+  IF ev.k # "st" \/ S = 0 THEN UNCHANGED <<tid, bit, cnt, oscnt, won, pend, pendos, gone>>
   ELSE IF ev.n = 0
   THEN /\ (ev.arena => G("AbandonByOwner", <<S, cur, me>>, cur \in {Unknown, me, 0}))
        /\ tid' = Put(tid, S, 0)
-       /\ UNCHANGED <<bit, cnt, oscnt, won, pend, pendos>>
+       /\ UNCHANGED <<bit, cnt, oscnt, won, pend, pendos, gone>>
   ELSE /\ G("AdoptOwnId", <<S, ev.n, me>>, ev.n = me)
        /\ (ev.arena => G("AdoptWhileOwned", <<S, cur, me>>, cur \in {Unknown, 0, me}))
        /\ (ev.arena => G("AdoptAfterWinning", <<S, me>>, S \in w \/ cur = me \/ (cur = Unknown /\ S \notin bit)))
        /\ tid' = Put(tid, S, me)
        /\ won' = Put(won, t, w \ {S})
+       /\ gone' = [x \in DOMAIN gone |-> IF x = t THEN gone[x] \ SetOf(ev.key) ELSE gone[x]]      \* (also a fresh segment at an address the thread once gave up)
        /\ UNCHANGED <<bit, cnt, oscnt, pend, pendos>>
 
 AbStep(ev) ==
@@ -61,11 +64,13 @@ AbStep(ev) ==
        /\ bit' = bit \cup hit
        /\ won' = Put(won, t, w \ hit)
        /\ pend' = Put(pend, t, Get(pend, t, 0) + Cardinality(hit))
+       /\ gone' = Put(gone, t, Get(gone, t, {}) \cup SetOf(ev.key))         \* from now on the segment may belong to somebody else
        /\ UNCHANGED <<tid, cnt, oscnt, pendos>>
   ELSE /\ G("BitContinuity", <<"clear", hit \ bit, miss \cap bit>>, hit \subseteq bit /\ miss \cap bit = {})
        /\ bit' = bit \ hit
        /\ won' = Put(won, t, w \cup hit)
        /\ pend' = Put(pend, t, Get(pend, t, 0) - Cardinality(hit))
+       /\ gone' = [x \in DOMAIN gone \cup {t} |-> IF x = t THEN Get(gone, t, {}) \ SetOf(ev.key) ELSE gone[x]]      \* the winner owns it (again)
        /\ UNCHANGED <<tid, cnt, oscnt, pendos>>
 
 \* OS segments are put on / taken off a list under a lock: the list count and the abandoned count move together (in either order);
@@ -76,13 +81,13 @@ CntStep(ev) ==
   THEN /\ G("CountContinuity", <<"oscnt", oscnt, ev.old>>, oscnt = Unknown \/ oscnt = ev.old)
        /\ oscnt' = ev.old + d
        /\ pendos' = Put(pendos, t, po + d)
-       /\ UNCHANGED <<tid, bit, cnt, won, pend>>
+       /\ UNCHANGED <<tid, bit, cnt, won, pend, gone>>
   ELSE /\ G("CountContinuity", <<"cnt", cnt, ev.old>>, cnt = Unknown \/ cnt = ev.old)
        /\ cnt' = ev.old + d
        /\ IF (d = 1 /\ p >= 1) \/ (d = -1 /\ p <= -1)
           THEN pend' = Put(pend, t, p - d) /\ UNCHANGED pendos
           ELSE pendos' = Put(pendos, t, po - d) /\ UNCHANGED pend
-       /\ UNCHANGED <<tid, bit, oscnt, won>>
+       /\ UNCHANGED <<tid, bit, oscnt, won, gone>>
 
 \* arena blocks given back: the segment that lived there is gone (it must not be in the abandoned set any more)
 FreeStep(ev) ==
@@ -90,22 +95,34 @@ FreeStep(ev) ==
   /\ G("FreedNotAbandoned", hit \cap bit, hit \cap bit = {})
   /\ tid' = [S \in (DOMAIN tid) \ hit |-> tid[S]]
   /\ won' = [t \in DOMAIN won |-> won[t] \ hit]
+  /\ gone' = [t \in DOMAIN gone |-> gone[t] \ SetOf(ev.key)]            \* the segment is gone: whatever lives at that address later is a new one
   /\ UNCHANGED <<bit, cnt, oscnt, pend, pendos>>
+
+\* a purge (madvise DONTNEED / FREE, mprotect NONE) by a thread inside a segment it has marked abandoned and not won back
+\* (a thread that frees or re-allocates a huge block of another thread resets that block's memory itself: exempt)
+Releasing(op) == op \in {"free", "free_size", "free_aligned", "free_size_aligned", "cfree", "realloc", "reallocf", "reallocn", "reallocarray", "reallocarr", "rezalloc", "recalloc",
+                         "realloc_aligned", "realloc_aligned_at", "heap_realloc", "heap_reallocf", "heap_reallocn", "heap_rezalloc", "heap_recalloc", "expand"}
+OsStep(ev) ==
+  /\ ((ev.call \in {"madvise", "mprotect"} /\ ev.arg \in {"DONTNEED", "FREE", "NONE"} /\ ~Releasing(Get(cop, ev.t, "none"))) =>
+         G("NoPurgeAfterAbandon", <<ev.t, ev.call, ev.a>>, (ev.a[1] \div 32) \notin Get(gone, ev.t, {})))
+  /\ UNCHANGED <<tid, bit, cnt, oscnt, won, pend, pendos, gone>>
 
 Next ==
   /\ step < Len(Tr) /\ step' = step + 1
   /\ LET ev == Tr[step + 1] IN
-     CASE ev.e = "astep" /\ ev.w = "tid" -> TidStep(ev)
-       [] ev.e = "astep" /\ ev.w = "ab" -> AbStep(ev)
-       [] ev.e = "astep" /\ ev.w \in {"cnt", "oscnt"} -> CntStep(ev)
-       [] ev.e = "astep" /\ ev.w = "free" -> FreeStep(ev)
+     CASE ev.e = "astep" /\ ev.w = "tid" -> TidStep(ev) /\ UNCHANGED cop
+       [] ev.e = "astep" /\ ev.w = "ab" -> AbStep(ev) /\ UNCHANGED cop
+       [] ev.e = "astep" /\ ev.w \in {"cnt", "oscnt"} -> CntStep(ev) /\ UNCHANGED cop
+       [] ev.e = "astep" /\ ev.w = "free" -> FreeStep(ev) /\ UNCHANGED cop
+       [] ev.e = "os" -> OsStep(ev) /\ UNCHANGED cop
+       [] ev.e = "call" -> cop' = Put(cop, ev.t, ev.op) /\ UNCHANGED <<tid, bit, cnt, oscnt, won, pend, pendos, gone>>
        [] ev.e = "ret" ->
             /\ G("WonSegmentsSettled", <<ev.t, ev.op, Get(won, ev.t, {})>>, Get(won, ev.t, {}) = {})
             /\ G("CountFollowsBit", <<"ret", ev.op, Get(pend, ev.t, 0), Get(pendos, ev.t, 0)>>, Get(pend, ev.t, 0) = 0 /\ Get(pendos, ev.t, 0) = 0)
             /\ won' = Put(won, ev.t, {}) /\ pend' = Put(pend, ev.t, 0) /\ pendos' = Put(pendos, ev.t, 0)
-            /\ UNCHANGED <<tid, bit, cnt, oscnt>>
-       [] ev.e \in {"reset", "cfg"} -> tid' = Empty /\ bit' = {} /\ cnt' = Unknown /\ oscnt' = Unknown /\ won' = Empty /\ pend' = Empty /\ pendos' = Empty
-       [] OTHER -> UNCHANGED <<tid, bit, cnt, oscnt, won, pend, pendos>>
+            /\ UNCHANGED <<tid, bit, cnt, oscnt, gone>> /\ cop' = Put(cop, ev.t, "none")
+       [] ev.e \in {"reset", "cfg"} -> tid' = Empty /\ bit' = {} /\ cnt' = Unknown /\ oscnt' = Unknown /\ won' = Empty /\ pend' = Empty /\ pendos' = Empty /\ gone' = Empty /\ cop' = Empty
+       [] OTHER -> UNCHANGED <<tid, bit, cnt, oscnt, won, pend, pendos, gone, cop>>
 Spec == Init /\ [][Next]_vars
 TraceView == step
 TraceAccepted == /\ PrintT(<<"TVDIAMETER", TLCGet("stats").diameter - 1>>) /\ TLCGet("stats").diameter - 1 = Len(Tr)
